@@ -37,6 +37,17 @@ def cases(draw, name, max_len):
     return case
 
 
+@st.composite
+def cases_large(draw, name):
+    """inputs of 12-30 items: heap selection with real replacements, long runs of ties"""
+    case = draw(base_case(name, max_len=30, min_len=12))
+    for src in case["srcs"]:
+        src["fl"] = draw(st.sampled_from(["list", "iter", "agen"]))
+    for spec in case["fns"].values():
+        spec["fl"] = draw(st.sampled_from(["def", "async"]))
+    return case
+
+
 def check(case):
     tool = case["tool"]
     bs = run_sync(case)
@@ -116,7 +127,10 @@ def classify(case):
 
 
 def shards(tier):
-    return [
+    large = [Shard(f"large-{name}", check, strategy=cases_large(name), n=400, nontrivial=nontrivial,
+                   classify=classify, thorough_mult=15)
+             for name in ("nlargest", "nsmallest", "sorted", "min", "max", "reduce", "sum")]
+    return large + [
         Shard(name, check, strategy=cases(name, 8 if tier == "quick" else 12), n=1200,
               nontrivial=nontrivial, classify=classify, thorough_mult=25)
         for name in AGG_TOOLS
